@@ -38,7 +38,8 @@ def values(name, G, T, seed=0):
             common.append(c)
         for g in range(G):
             nz = _noise(977 * seed + 31 * g + 5, T, 0, amp[g % len(amp)])
-            out[g] = [float(w[g % len(w)] * common[d] + nz[d]) for d in range(T)]
+            # geo 3 has a level shift half-way (structural break: makes the Brownian-bridge test fail for some designs)
+            out[g] = [float(w[g % len(w)] * common[d] + nz[d] + (24 if (g == 3 and d >= T // 2) else 0)) for d in range(T)]
     elif name == 'C':    # seed-derived panel (VERIF_SEED != 0): random walk with random weights
         ws = _noise(seed + 3, G, 1, 9)
         steps = _noise(seed + 11, T, -4, 5)
@@ -65,6 +66,11 @@ def rows(p):
         for g in range(G):
             if variant == 'missing' and (g, d) == (G - 1, 1):
                 continue  # one missing (geo, date) cell -> zero fill
+            if variant == 'dup' and (g + d) % 3 == 0:
+                # two reporting lines for the same (geo, date): the documented pivot averages them (v-3, v+3 -> v)
+                out.append((dates[d], g, vals[g][d] - 3.0))
+                out.append((dates[d], g, vals[g][d] + 3.0))
+                continue
             out.append((dates[d], g, vals[g][d]))
     if variant == 'shuffled':
         out = out[::-1]
